@@ -23,7 +23,7 @@ def load_known():
 
 def match_known(known, v):
     for k in known:
-        if k.get('property') != v['prop']: continue
+        if k.get('property') != (v.get('report_as') or v['prop']): continue
         if 'kind' in k and k['kind'] != v['kind']: continue
         if 'grammar' in k and k['grammar'] != v['gname'] and k['grammar'] != (v.get('family') or ''): continue
         return k
@@ -44,8 +44,10 @@ def select(prop, t, sd):
     nrnd = {'quick': 6, 'thorough': 50}[t]
     rnd = [corpus.random_grammar(sd, i, rich) for rich in (0, 1, 2) for i in range(nrnd)]
     gs = cur + cov + nm + rnd
-    if prop in ('C04',):
-        gs = [g for g in gs if not (g.features() & {'pred', 'assert', 'choice', 'ptrue'})]
+    if prop in ('C04', 'C05'):
+        gs = [g for g in gs if not (g.features() & {'pred', 'assert'})]
+    if prop == 'C08':
+        gs = [g for g in gs if 'choice' in g.features()]
     if prop in ('C06',):
         gs = [g for g in gs if not (g.features() & {'pred', 'assert', 'choice', 'ptrue'})]
     return gs
@@ -89,7 +91,7 @@ def finish(prop, results, N, t, sd, t0, extra_cov=None):
         if sig in seen: continue
         seen.add(sig)
         p = write_replay(v)
-        print(f"VIOLATION property={v['prop']} replay={p}")
+        print(f"VIOLATION property={v.get('report_as') or v['prop']} replay={p}")
         print(f"   grammar {v['gname']}: {v['detail'][:300]}  input={v['witness']} script={v['script']!r}")
         reported += 1
     for ktext, cnt in known_hits.items():
@@ -140,8 +142,12 @@ def finish(prop, results, N, t, sd, t0, extra_cov=None):
 
 def main(argv):
     prop = argv[1]
-    if prop in ('C01', 'C02', 'C03', 'C04', 'C06'):
+    if prop in ('C01', 'C02', 'C03', 'C06', 'C05'):
         return run_parser_property(prop)
+    if prop == 'C04':
+        return run_parser_property(prop, evals=['C04auto'])
+    if prop == 'C08':
+        return run_parser_property(prop, evals=['C08', 'C04auto:C08', 'C05:C08'])
     if prop == 'C16':
         return run_parser_property(prop, job=props.c16_job,
                                    extra=lambda rs: dict(differential_comparisons=sum(r.get('comparisons', 0) for r in rs), extra_forks_on_trivia_free_side=sum(r.get('extra_forks', 0) for r in rs)))
